@@ -197,6 +197,10 @@ def edge_set_rule(ctx: Ctx, rid: str, only=None):
 
 
 def run_extra(ctx: Ctx):
+    # ---------------------------------------------------------------- R04.14 a dependant on a container reads the dates written by the
+    # roll-up that runs while leaves are placed: latest child end / earliest child start (= C10 R10.2 for that roll-up)
+    from .c10 import rollup_accumulator_rule
+    rollup_accumulator_rule(ctx, "R04.14", which=("upd",))
     # ---------------------------------------------------------------- R04.13 every duration parser tells minutes from months
     from .common import duration_unit_rule
     duration_unit_rule(ctx, "R04.13")
